@@ -1,4 +1,5 @@
 import ColaVerif.Lemmas.GMRESWitness
+import ColaVerif.Lemmas.Hess3
 
 /-!
 # C13 — GMRES returns the residual-minimising iterate of its Krylov space
@@ -30,6 +31,21 @@ unexecuted steps — known finding `maskExact`), `solveContract`, `krylovRegular
 Why `_partial`: the clauses above; NOT proved (oracle-checked only): monotonicity in `m`, several
 columns with different grades in one batch, floating point.
 Lemmas about the former behaviour (`drop = true`): `C13_dropped_row_is_FOM`, `C13_dropped_row_witness`.
+
+ROUND 2 (second half of this file; nothing above was changed):
+* `C13_krylov_span` — without breakdown before step `s`, `span{q₀…q_{j-1}} = K_j(A, r₀)` (`Arnoldi.krylov`), `j ≤ s+1`;
+* `C13_krylov_optimal` — `x − x₀ ∈ K_s(A, r₀)` and `‖b − A x‖ ≤ ‖b − A (x₀ + z)‖` for all `z ∈ K_s(A, r₀)`; the per-call
+  hypothesis `solveContract` is replaced by the uniform contract `GMRES.SolverSound` (satisfiable:
+  `C13_solverSound_witness`), the regularity of the system handed to the solver is PROVED;
+  `C13_krylov_optimal_input`: clause `noBreakdown` stated on the inputs (`Arnoldi.krylovDist`);
+* `C13_monotone` — residual norms are non-increasing in `max_iters`;
+* `C13_exact_at_grade_injective` / `_input` / `C13_exact_at_dim` — zero residual at breakdown / at `m` = grade
+  (`A^s r₀ ∈ K_s`) / at `s = n = dim E`, for an injective `A`; the former clause `krylovRegular` is proved;
+* witnesses on the 3 × 3 non-symmetric system `[[1,1,0],[2,1,1],[0,3,1]]` (`Lemmas/Hess3.lean`):
+  `C13_hypotheses_witness`, `C13_exact_witness`.
+CONTRACTS that remain: `SolverSound solve` (LAPACK `gesv` in exact arithmetic: on a nonsingular system the returned
+vector solves it); exact real/complex arithmetic.  Clause that remains a condition on the computed `H`: `maskExact`
+(sufficient checkable condition: `GMRES.maskExact_of_entries`; counter-witness `C13_maskExact_clause_needed`).
 -/
 
 open scoped InnerProductSpace
@@ -201,3 +217,203 @@ theorem C13_dropped_row_witness (solve : Array (Array ℝ) → Array ℝ → Arr
 #print axioms GMRES.lsq_of_orth
 #print axioms GMRES.residual_norm_sq
 #print axioms GMRES.minimal_of_normal_equations
+
+/-! ## Round 2: the Krylov space of the initial residual, the solver contract, monotonicity, witnesses -/
+
+/-- **the Arnoldi columns GMRES works with span the Krylov spaces of the initial residual**: without breakdown
+before step `s` (= executed steps), `span{q₀ … q_{j-1}} = K_j(A, b − A x₀) = span{r₀, A r₀, …, A^{j-1} r₀}` for every
+`j ≤ s + 1` -/
+theorem C13_krylov_span (A : E →ₗ[𝕜] E) (n M : Nat) (tol : ℝ) (tolPos : 0 < tol) (b x0 : E)
+    (resNonzero : b - A x0 ≠ 0)
+    (noBreakdown : ∀ i, i < (runE A n M tol [b - A x0]).idx →
+      tol / 2 ≤ (colAt A M tol (b - A x0) (runE A n M tol [b - A x0]).idx).beta i) :
+    ∀ j, j ≤ (runE A n M tol [b - A x0]).idx + 1 →
+      qspan (𝕜 := 𝕜) (colAt A M tol (b - A x0) (runE A n M tol [b - A x0]).idx).q j = krylov A (b - A x0) j := by
+  have hsM : (runE A n M tol [b - A x0]).idx ≤ M :=
+    le_trans (run_spec (⇑A) n M ((tol : ℝ) : 𝕜) [b - A x0]).2.1 (min_le_left _ _)
+  exact colAt_qspan_eq_krylov A M tol (b - A x0) tolPos resNonzero _ _ (le_refl _) hsM noBreakdown
+
+/-- **C13, Krylov form**: `gmres` returns `x` with `x − x₀ ∈ K_s(A, r₀)`, `r₀ = b − A x₀`, and
+`‖b − A x‖ ≤ ‖b − A (x₀ + z)‖` for every `z ∈ K_s(A, r₀)` (`s` = executed Arnoldi steps).
+The per-call hypothesis `solveContract` of `C13_partial` is replaced by the uniform, satisfiable contract
+`solverSound : GMRES.SolverSound solve` (witness `GMRES.exactSolve_sound`): that the system handed to the
+solver is nonsingular is proved (`GMRES.normalMatrix_regular`).  Remaining clauses: `resNonzero`,
+`noBreakdown`, `maskExact`. -/
+theorem C13_krylov_optimal (solve : Array (Array 𝕜) → Array 𝕜 → Array 𝕜) (A : E →ₗ[𝕜] E)
+    (n M : Nat) (tol : ℝ) (tolPos : 0 < tol) (b x0 : E) (resNonzero : b - A x0 ≠ 0)
+    (noBreakdown : ∀ i, i < (runE A n M tol [b - A x0]).idx →
+      tol / 2 ≤ (colAt A M tol (b - A x0) (runE A n M tol [b - A x0]).idx).beta i)
+    (maskExact : MaskExact dropLastRow M tol (runE A n M tol [b - A x0]).idx
+      (colAt A M tol (b - A x0) (runE A n M tol [b - A x0]).idx))
+    (solverSound : SolverSound solve) :
+    ∃ x, (gmres solve (⇑A) n M ((tol : ℝ) : 𝕜) [b] [x0]).soln = [x] ∧
+      x - x0 ∈ krylov A (b - A x0) (runE A n M tol [b - A x0]).idx ∧
+      ∀ z ∈ krylov A (b - A x0) (runE A n M tol [b - A x0]).idx, ‖b - A x‖ ≤ ‖b - A (x0 + z)‖ := by
+  have hsM : (runE A n M tol [b - A x0]).idx ≤ M :=
+    le_trans (run_spec (⇑A) n M ((tol : ℝ) : 𝕜) [b - A x0]).2.1 (min_le_left _ _)
+  obtain ⟨h1, h2⟩ := krylov_optimal (solve := solve) tolPos resNonzero hsM noBreakdown maskExact solverSound
+    b x0 rfl
+  refine ⟨_, (gmresCore_single solve false A n M tol b x0).1, ?_, h2⟩
+  rw [add_sub_cancel_left]
+  exact h1
+
+/-- the same with the clause `noBreakdown` stated on the INPUTS: the Krylov distances
+`d_j = dist(A^j r₀, K_j(A, r₀))` grow by at least `tol/2` per executed step -/
+theorem C13_krylov_optimal_input (solve : Array (Array 𝕜) → Array 𝕜 → Array 𝕜) (A : E →ₗ[𝕜] E)
+    (n M : Nat) (tol : ℝ) (tolPos : 0 < tol) (b x0 : E) (resNonzero : b - A x0 ≠ 0)
+    (noBreakdownInput : ∀ i, i < (runE A n M tol [b - A x0]).idx →
+      tol / 2 * krylovDist A (b - A x0) i ≤ krylovDist A (b - A x0) (i + 1))
+    (maskExact : MaskExact dropLastRow M tol (runE A n M tol [b - A x0]).idx
+      (colAt A M tol (b - A x0) (runE A n M tol [b - A x0]).idx))
+    (solverSound : SolverSound solve) :
+    ∃ x, (gmres solve (⇑A) n M ((tol : ℝ) : 𝕜) [b] [x0]).soln = [x] ∧
+      x - x0 ∈ krylov A (b - A x0) (runE A n M tol [b - A x0]).idx ∧
+      ∀ z ∈ krylov A (b - A x0) (runE A n M tol [b - A x0]).idx, ‖b - A x‖ ≤ ‖b - A (x0 + z)‖ := by
+  have hsM : (runE A n M tol [b - A x0]).idx ≤ M :=
+    le_trans (run_spec (⇑A) n M ((tol : ℝ) : 𝕜) [b - A x0]).2.1 (min_le_left _ _)
+  exact C13_krylov_optimal solve A n M tol tolPos b x0 resNonzero
+    ((noBreakdown_iff_krylovDist A M tol (b - A x0) tolPos resNonzero _ hsM).mpr noBreakdownInput)
+    maskExact solverSound
+
+/-- **residual norms are non-increasing in `max_iters`**: the run with the larger cap executes at least as
+many steps (`Arnoldi.run_idx_mono`), Krylov spaces are nested, and each iterate is the minimiser over its own -/
+theorem C13_monotone (solve : Array (Array 𝕜) → Array 𝕜 → Array 𝕜) (A : E →ₗ[𝕜] E)
+    (n M M' : Nat) (hMM : M ≤ M') (tol : ℝ) (tolPos : 0 < tol) (b x0 : E) (resNonzero : b - A x0 ≠ 0)
+    (noBreakdown : ∀ i, i < (runE A n M tol [b - A x0]).idx →
+      tol / 2 ≤ (colAt A M tol (b - A x0) (runE A n M tol [b - A x0]).idx).beta i)
+    (maskExact : MaskExact dropLastRow M tol (runE A n M tol [b - A x0]).idx
+      (colAt A M tol (b - A x0) (runE A n M tol [b - A x0]).idx))
+    (noBreakdown' : ∀ i, i < (runE A n M' tol [b - A x0]).idx →
+      tol / 2 ≤ (colAt A M' tol (b - A x0) (runE A n M' tol [b - A x0]).idx).beta i)
+    (maskExact' : MaskExact dropLastRow M' tol (runE A n M' tol [b - A x0]).idx
+      (colAt A M' tol (b - A x0) (runE A n M' tol [b - A x0]).idx))
+    (solverSound : SolverSound solve) :
+    ∃ x x', (gmres solve (⇑A) n M ((tol : ℝ) : 𝕜) [b] [x0]).soln = [x] ∧
+      (gmres solve (⇑A) n M' ((tol : ℝ) : 𝕜) [b] [x0]).soln = [x'] ∧ ‖b - A x'‖ ≤ ‖b - A x‖ := by
+  obtain ⟨x, hx, hmem, _⟩ := C13_krylov_optimal solve A n M tol tolPos b x0 resNonzero noBreakdown
+    maskExact solverSound
+  obtain ⟨x', hx', _, hmin'⟩ := C13_krylov_optimal solve A n M' tol tolPos b x0 resNonzero noBreakdown'
+    maskExact' solverSound
+  refine ⟨x, x', hx, hx', ?_⟩
+  have hidx := run_idx_mono A tol tolPos n M M' hMM [b - A x0] (by simpa using resNonzero)
+  have := hmin' (x - x0) (krylov_mono A (b - A x0) hidx hmem)
+  rwa [add_sub_cancel] at this
+
+/-- **zero residual once the Krylov space is exhausted, for an injective operator**: the former clause
+`krylovRegular` (`H_s` invertible) is PROVED from `A Q_s = Q_s H_s` and injectivity of `A`, and the solver's
+per-call hypothesis is replaced by `SolverSound`. -/
+theorem C13_exact_at_grade_injective (solve : Array (Array 𝕜) → Array 𝕜 → Array 𝕜) (A : E →ₗ[𝕜] E)
+    (n M : Nat) (tol : ℝ) (tolPos : 0 < tol) (b x0 : E) (resNonzero : b - A x0 ≠ 0)
+    (hs : 0 < (runE A n M tol [b - A x0]).idx)
+    (noEarlierBreakdown : ∀ i, i + 1 < (runE A n M tol [b - A x0]).idx →
+      tol / 2 ≤ (colAt A M tol (b - A x0) (runE A n M tol [b - A x0]).idx).beta i)
+    (exactBreakdown : (colAt A M tol (b - A x0) (runE A n M tol [b - A x0]).idx).beta
+      ((runE A n M tol [b - A x0]).idx - 1) = 0)
+    (maskExact : MaskExact dropLastRow M tol (runE A n M tol [b - A x0]).idx
+      (colAt A M tol (b - A x0) (runE A n M tol [b - A x0]).idx))
+    (solverSound : SolverSound solve) (injective : Function.Injective A) :
+    ∃ x, (gmres solve (⇑A) n M ((tol : ℝ) : 𝕜) [b] [x0]).soln = [x] ∧ b - A x = 0 := by
+  have hsM : (runE A n M tol [b - A x0]).idx ≤ M :=
+    le_trans (run_spec (⇑A) n M ((tol : ℝ) : 𝕜) [b - A x0]).2.1 (min_le_left _ _)
+  exact ⟨_, (gmresCore_single solve false A n M tol b x0).1,
+    exact_at_breakdown_sound (solve := solve) tolPos resNonzero hsM hs noEarlierBreakdown exactBreakdown
+      maskExact solverSound injective b x0 rfl⟩
+
+/-- **`m` = grade**: the clause `exactBreakdown` as a condition on the inputs — `A^s r₀ ∈ K_s(A, r₀)`, the Krylov
+space of the initial residual is exhausted after the `s` executed steps -/
+theorem C13_exact_at_grade_input (solve : Array (Array 𝕜) → Array 𝕜 → Array 𝕜) (A : E →ₗ[𝕜] E)
+    (n M : Nat) (tol : ℝ) (tolPos : 0 < tol) (b x0 : E) (resNonzero : b - A x0 ≠ 0)
+    (hs : 0 < (runE A n M tol [b - A x0]).idx)
+    (noEarlierBreakdown : ∀ i, i + 1 < (runE A n M tol [b - A x0]).idx →
+      tol / 2 ≤ (colAt A M tol (b - A x0) (runE A n M tol [b - A x0]).idx).beta i)
+    (gradeReached : (A ^ (runE A n M tol [b - A x0]).idx) (b - A x0) ∈
+      krylov A (b - A x0) (runE A n M tol [b - A x0]).idx)
+    (maskExact : MaskExact dropLastRow M tol (runE A n M tol [b - A x0]).idx
+      (colAt A M tol (b - A x0) (runE A n M tol [b - A x0]).idx))
+    (solverSound : SolverSound solve) (injective : Function.Injective A) :
+    ∃ x, (gmres solve (⇑A) n M ((tol : ℝ) : 𝕜) [b] [x0]).soln = [x] ∧ b - A x = 0 := by
+  have hsM : (runE A n M tol [b - A x0]).idx ≤ M :=
+    le_trans (run_spec (⇑A) n M ((tol : ℝ) : 𝕜) [b - A x0]).2.1 (min_le_left _ _)
+  exact C13_exact_at_grade_injective solve A n M tol tolPos b x0 resNonzero hs noEarlierBreakdown
+    (exactBreakdown_of_pow_mem A M tol (b - A x0) tolPos resNonzero _ hs hsM noEarlierBreakdown gradeReached)
+    maskExact solverSound injective
+
+/-- **`m ≥ n`**: when `n = dim E` steps were executed the breakdown is automatic (`C15_dimension_cap`): the
+residual is zero.  `n` is tied to the dimension of the space here. -/
+theorem C13_exact_at_dim [FiniteDimensional 𝕜 E] (solve : Array (Array 𝕜) → Array 𝕜 → Array 𝕜)
+    (A : E →ₗ[𝕜] E) (n M : Nat) (tol : ℝ) (tolPos : 0 < tol) (b x0 : E) (resNonzero : b - A x0 ≠ 0)
+    (dimE : Module.finrank 𝕜 E = n) (hn : 0 < n)
+    (ranToDim : (runE A n M tol [b - A x0]).idx = n)
+    (noEarlierBreakdown : ∀ i, i + 1 < n → tol / 2 ≤ (colAt A M tol (b - A x0) n).beta i)
+    (maskExact : MaskExact dropLastRow M tol n (colAt A M tol (b - A x0) n))
+    (solverSound : SolverSound solve) (injective : Function.Injective A) :
+    ∃ x, (gmres solve (⇑A) n M ((tol : ℝ) : 𝕜) [b] [x0]).soln = [x] ∧ b - A x = 0 := by
+  have hsM : (runE A n M tol [b - A x0]).idx ≤ M :=
+    le_trans (run_spec (⇑A) n M ((tol : ℝ) : 𝕜) [b - A x0]).2.1 (min_le_left _ _)
+  have hnM : n ≤ M := by rw [← ranToDim]; exact hsM
+  have hcap := (inv_colAfter A M (b - A x0) tol resNonzero tolPos n hnM).cap_column_zero dimE hn
+    noEarlierBreakdown
+  apply C13_exact_at_grade_injective solve A n M tol tolPos b x0 resNonzero
+  · rw [ranToDim]; exact hn
+  · rw [ranToDim]; exact noEarlierBreakdown
+  · rw [ranToDim]; exact hcap.2
+  · rw [ranToDim]; exact maskExact
+  · exact solverSound
+  · exact injective
+
+/-- the solver contract is satisfiable -/
+theorem C13_solverSound_witness : SolverSound (exactSolve (𝕜 := 𝕜)) := exactSolve_sound
+
+/-- **witness for the hypothesis bundle of `C13_krylov_optimal` / `C13_partial`** on a 3 × 3 non-symmetric
+system: `A = [[1,1,0],[2,1,1],[0,3,1]]`, `b = e₀`, `x₀ = 0`, `max_iters = 2`, `tol = 1/100`: two steps, `β = 2, 3` -/
+theorem C13_hypotheses_witness :
+    Hess3.e 0 - Hess3.A 0 ≠ 0 ∧
+    (runE Hess3.A 3 2 (1 / 100) [Hess3.e 0 - Hess3.A 0]).idx = 2 ∧
+    (∀ i, i < 2 → (1 / 100 : ℝ) / 2 ≤ (colAt Hess3.A 2 (1 / 100) (Hess3.e 0 - Hess3.A 0) 2).beta i) ∧
+    MaskExact dropLastRow 2 (1 / 100) 2 (colAt Hess3.A 2 (1 / 100) (Hess3.e 0 - Hess3.A 0) 2) ∧
+    SolverSound (exactSolve (𝕜 := ℝ)) := by
+  have hr : Hess3.e 0 - Hess3.A 0 = Hess3.e 0 := by simp
+  rw [hr]
+  refine ⟨Hess3.e0_ne, ?_, ?_, Hess3.mask2, exactSolve_sound⟩
+  · rw [Hess3.idx_eq_cap 2 (1 / 100) (le_refl _) (by norm_num) (by norm_num)]; rfl
+  · intro i hi
+    rw [Hess3.beta2 2 (1 / 100) (le_refl _) (by norm_num) (by norm_num) i hi]
+    unfold Hess3.bt
+    split <;> norm_num
+
+/-- **witness for the hypothesis bundle of `C13_exact_at_grade_injective`** on the same system with
+`max_iters = 3 = n`: three steps, `β₂ = 0`, `A` injective — and the conclusion: the model solves the system -/
+theorem C13_exact_witness :
+    (runE Hess3.A 3 3 (1 / 100) [Hess3.e 0 - Hess3.A 0]).idx = 3 ∧
+    (∀ i, i + 1 < 3 → (1 / 100 : ℝ) / 2 ≤ (colAt Hess3.A 3 (1 / 100) (Hess3.e 0 - Hess3.A 0) 3).beta i) ∧
+    (colAt Hess3.A 3 (1 / 100) (Hess3.e 0 - Hess3.A 0) 3).beta 2 = 0 ∧
+    MaskExact dropLastRow 3 (1 / 100) 3 (colAt Hess3.A 3 (1 / 100) (Hess3.e 0 - Hess3.A 0) 3) ∧
+    Function.Injective Hess3.A ∧
+    ∃ x, (gmres exactSolve (⇑Hess3.A) 3 3 (RCLike.ofReal (1 / 100 : ℝ) : ℝ) [Hess3.e 0] [0]).soln = [x] ∧
+      Hess3.e 0 - Hess3.A x = 0 := by
+  have hr : Hess3.e 0 - Hess3.A 0 = Hess3.e 0 := by simp
+  have hidx : (runE Hess3.A 3 3 (1 / 100) [Hess3.e 0]).idx = 3 := by
+    rw [Hess3.idx_eq_cap 3 (1 / 100) (by norm_num) (by norm_num) (by norm_num)]; rfl
+  have hun : ∀ i, i + 1 < 3 → (1 / 100 : ℝ) / 2 ≤ (colAt Hess3.A 3 (1 / 100) (Hess3.e 0) 3).beta i := by
+    intro i hi
+    rw [Hess3.beta_any 3 (1 / 100) 3 (le_refl _) (by norm_num) (by norm_num) (by norm_num) i (by omega) (by omega)]
+    unfold Hess3.bt
+    split <;> norm_num
+  have hb := (Hess3.colAt3 3 (1 / 100) (le_refl _) (by norm_num) (by norm_num)).2.2
+  rw [hr]
+  refine ⟨hidx, hun, hb, Hess3.mask3, Hess3.A_injective, ?_⟩
+  have := C13_exact_at_grade_injective (exactSolve (𝕜 := ℝ)) Hess3.A 3 3 (1 / 100) (by norm_num) (Hess3.e 0) 0
+    (by rw [hr]; exact Hess3.e0_ne) (by rw [hr, hidx]; norm_num) (by rw [hr, hidx]; exact hun)
+    (by rw [hr, hidx]; exact hb) (by rw [hr, hidx]; exact Hess3.mask3) exactSolve_sound Hess3.A_injective
+  exact this
+
+#print axioms C13_krylov_span
+#print axioms C13_krylov_optimal
+#print axioms C13_krylov_optimal_input
+#print axioms C13_monotone
+#print axioms C13_exact_at_grade_injective
+#print axioms C13_exact_at_grade_input
+#print axioms C13_exact_at_dim
+#print axioms C13_solverSound_witness
+#print axioms C13_hypotheses_witness
+#print axioms C13_exact_witness
